@@ -137,6 +137,8 @@ class ParsedContract(object):
                     ls.invariants.append(call.args[2])
                 else:
                     ls.hints.append((ast.literal_eval(call.args[2]), call.args[3]))
+            elif kind == 'split_op':
+                self.loop(call.args[0]).split_op = True
             elif kind == 'unroll':
                 self.loop(call.args[0]).unroll = ast.literal_eval(call.args[1])
             elif kind == 'ghost':
@@ -241,7 +243,9 @@ class ModelView(object):
 
 def input_terms(v, heap, out):
     """z3 terms whose values determine the concrete input v."""
-    if isinstance(v, (SInt, SBool, SSeq)):
+    if isinstance(v, SymFlags):
+        out.extend(v.terms)
+    elif isinstance(v, (SInt, SBool, SSeq)):
         out.append(v.t)
     elif isinstance(v, Ref) and heap is not None and v.id in heap:
         c = heap[v.id]
@@ -277,6 +281,10 @@ def term_to_py(m, v, heap=None):
             return {'__list__': m.seq(c.t)}
         if isinstance(c, DictCell):
             return {'__dict__': {k: term_to_py(m, x, heap) for k, x in c.d.items()}}
+    if isinstance(v, SymFlags):
+        import bitcoin.core.scripteval as _se
+        names = {id(o): n for n, o in _se.SCRIPT_VERIFY_FLAGS_BY_NAME.items()}
+        return {'__flags__': [names.get(id(f), '?') for f, t in zip(v.flags, v.terms) if m.bool(t)]}
     if isinstance(v, SInt):
         return m.int(v.t)
     if isinstance(v, SBool):
@@ -322,7 +330,16 @@ def discharge(ob, timeout_ms=None):
             rec.model = ModelView(z3model=s.model())
             return rec
         rec.detail = 'z3: %s' % s.reason_unknown()
-    # sequence obligations (and arithmetic unknowns): external solvers, hard limits
+    # sequence obligations: cheap arithmetic abstraction first (lengths as integers)
+    if ob.seq:
+        try:
+            if solver.abstract_unsat(assertions):
+                rec.status, rec.backend = 'discharged', 'z3-abstraction'
+                rec.time = time.time() - t0
+                return rec
+        except z3.Z3Exception:
+            pass
+    # then external solvers with hard limits
     txt = solver.smt2_text(assertions)
     r, rest_, backend = solver.portfolio(txt, ms)
     if r not in ('sat', 'unsat'):
@@ -422,6 +439,26 @@ class ContractUse(object):
                 I.oblige(z3.BoolVal(bt) if isinstance(bt, bool) else bt, 'call-pre',
                          '%s requires %s' % (self.cdef.target, ast.unparse(r)), where)
                 I.assume(z3.BoolVal(bt) if isinstance(bt, bool) else bt)
+            # further contracts of the same target that hold in conjunction (option also=[...]):
+            # on normal return  requires_B  =>  not when_B   (evaluated in the call state)
+            also_facts = []
+            for bname in pc.options.get('also', []):
+                for cd2 in dsl.CONTRACTS.get(self.cdef.target, []):
+                    if cd2.name != bname:
+                        continue
+                    pb = parsed(cd2)
+                    I.called_contracts.add('%s[%s]' % (cd2.target, cd2.name))
+                    rs = []
+                    for r in pb.requires:
+                        bt = I.bool_term(I.eval(r))
+                        rs.append(z3.BoolVal(bt) if isinstance(bt, bool) else bt)
+                    ws = []
+                    for (cn, when, ens2) in pb.raises:
+                        if when is not None:
+                            bt = I.bool_term(I.eval(when))
+                            ws.append(z3.BoolVal(bt) if isinstance(bt, bool) else bt)
+                    if ws:
+                        also_facts.append(z3.Implies(z3.And(*rs) if rs else z3.BoolVal(True), z3.Not(z3.Or(*ws))))
             I.pure -= 1
             try:
                 # outcomes: 0 = normal, i>0 = raises clause i-1
@@ -449,10 +486,11 @@ class ContractUse(object):
             if conds[d] is not None:
                 I.assume(conds[d])
             # havoc what the callee may modify: every mutable argument named in modifies(...)
+            pshapes = dict(pc.params)
             for nm in pc.options.get('modifies', []):
                 v = env.get(nm)
                 if isinstance(v, Ref):
-                    I.havoc_cell(v, nm)
+                    I.havoc_cell(v, nm, pshapes.get(nm))
             if d == 0:
                 res = None
                 if pc.ret is not None:
@@ -462,8 +500,15 @@ class ContractUse(object):
                     finally:
                         I.pure += 1
                 fr.env['result'] = res
+                for af in also_facts:
+                    I.assume(af)
                 for e in pc.ensures:
-                    bt = I.bool_term(I.eval(e))
+                    try:
+                        bt = I.bool_term(I.eval(e))
+                    except OutOfReach:
+                        # an assumed fact that cannot be expressed here is dropped (sound: weaker)
+                        I.st.notes.append('dropped callee postcondition: %s' % ast.unparse(e))
+                        continue
                     I.assume(z3.BoolVal(bt) if isinstance(bt, bool) else bt)
                 return res
             cls_n, when, ens = pc.raises[d - 1]
@@ -654,6 +699,8 @@ def run_path(I, fn, cdef, pc):
             d = I.choice(len(conds), conds)
             I.st.pc.append(conds[d])
             if d == hi - lo:
+                if len(sp) > 3:
+                    continue        # split(expr, lo, hi, 'rest'): values outside the range go on unsplit
                 I.oblige(False, 'cases', 'split range [%d,%d) is exhaustive' % (lo, hi), cdef.name)
                 raise PathEnd()
             I.learn(t, lo + d)
